@@ -22,7 +22,20 @@ fn exprs(depth: usize) -> Vec<String> {
         for (k, s) in subs.iter().enumerate() {
             if (k + pi) % 2 == 0 { out.push(format!("new {p} {{ x: {s} }}")); }
             else { out.push(format!("new {p} {{ w, x: {s}, \"y\": ({s}), ...v }}")); }
+            // named arguments AFTER a spread / fill / inferred argument (every position of the argument list is visited)
+            if k < 3 {
+                out.push(format!("new {p} {{ ...w, x: {s} }}"));
+                out.push(format!("new {p} {{ ..., \"y\": {s} }}"));
+                out.push(format!("new {p} {{ v, ...w, ..., x: ({s}), z }}"));
+            }
         }
+    }
+    for (pi, p) in PKGS.iter().enumerate() {
+        let only = ["g:h", "m:n@2.0.0", "o:p"][pi];
+        out.push(format!("new {p} {{ ...w, x: new {only} {{ }} }}"));
+        out.push(format!("new {p} {{ ..., x: new {only} {{ }} }}"));
+        out.push(format!("new {p} {{ v, x: new {only} {{ }} }}"));
+        out.push(format!("new {p} {{ v, ...w, ..., \"y\": (new {only} {{ ...w, z: new {OWN} {{ }} }}) }}"));
     }
     for s in subs.iter() { out.push(format!("({s})")); }
     out
